@@ -1,5 +1,5 @@
 (* Props/C02.v — the theorems that decide property C02.  Statements only. *)
-From CKB Require Import Chain.Store Chain.StoreProofs Chain.StoreExamples Chain.EpochRecord Chain.EpochRecordProofs.
+From CKB Require Import Chain.Store Chain.StoreProofs Chain.StoreExamples Chain.EpochRecord Chain.EpochRecordProofs Chain.EpochIndex Chain.EpochIndexProofs.
 
 (* Detaching a block (detach_block, then detach_block_cell) is the exact
    inverse of attaching it, on every column: live cells, transaction
@@ -58,6 +58,35 @@ Theorem c02_epoch_record_example :
   record s = tip_eid s /\ tip_enum s = 2.
 Proof. exact code_rule_example. Qed.
 
+(* The epoch-by-number index (get_epoch_index: RPC get_epoch_by_number, the freezer's threshold): after
+   any sequence of attaches, detaches (reorganisations, truncations) and verifications of side-branch
+   blocks — where each attached block that opens an epoch is the only one of the main chain to open
+   that epoch — the row of every number is the epoch record of the main-chain block that opens that
+   epoch, and there is no row where the main chain has no such block. *)
+Theorem c02_epoch_index_follows_main_chain : forall ops g,
+  ops_ok false (xinit g) ops ->
+  let s := xrun false (xinit g) ops in
+  forall n, ilookup (x_index s) n = main_epoch (x_main s) n.
+Proof. exact epoch_index_follows_main_chain. Qed.
+
+(* F20 (repaired by 427fd10): with the row also written when a side-branch block that opens an epoch is
+   verified, the index designates the side branch's epoch *)
+Theorem c02_epoch_index_side_writes_refuted :
+  let ops := [XAttach ex_a; XSideVerified ex_side] in
+  ops_ok true (xinit ex_g) ops /\
+  ilookup (x_index (xrun true (xinit ex_g) ops)) 1 = Some 21 /\
+  main_epoch (x_main (xrun true (xinit ex_g) ops)) 1 = Some 11 /\
+  ilookup (x_index (xrun false (xinit ex_g) ops)) 1 = Some 11.
+Proof. exact side_writes_refuted. Qed.
+
+Theorem c02_epoch_index_example :
+  let ops := [XAttach ex_a; XSideVerified ex_side; XDetach; XAttach ex_side; XDetach] in
+  ops_ok false (xinit ex_g) ops /\
+  ilookup (x_index (xrun false (xinit ex_g) (firstn 4 ops))) 1 = Some 21 /\
+  ilookup (x_index (xrun false (xinit ex_g) ops)) 1 = None /\
+  ilookup (x_index (xrun false (xinit ex_g) ops)) 0 = Some 10.
+Proof. exact epoch_index_example. Qed.
+
 Redirect "out/C02.c02_detach_inverse" Print Assumptions c02_detach_inverse.
 Redirect "out/C02.c02_reorg_is_replay" Print Assumptions c02_reorg_is_replay.
 Redirect "out/C02.c02_replay_wf" Print Assumptions c02_replay_wf.
@@ -68,3 +97,6 @@ Redirect "out/C02.c02_example_reorg" Print Assumptions c02_example_reorg.
 Redirect "out/C02.c02_epoch_record_follows_tip" Print Assumptions c02_epoch_record_follows_tip.
 Redirect "out/C02.c02_epoch_record_old_rule_refuted" Print Assumptions c02_epoch_record_old_rule_refuted.
 Redirect "out/C02.c02_epoch_record_example" Print Assumptions c02_epoch_record_example.
+Redirect "out/C02.c02_epoch_index_follows_main_chain" Print Assumptions c02_epoch_index_follows_main_chain.
+Redirect "out/C02.c02_epoch_index_side_writes_refuted" Print Assumptions c02_epoch_index_side_writes_refuted.
+Redirect "out/C02.c02_epoch_index_example" Print Assumptions c02_epoch_index_example.
